@@ -38,12 +38,12 @@
 (*                 pool (map.go:74 `if !loaded`): the cleanup hook runs on a live map value and    *)
 (*                 the next Get of another missing key may store the same object again             *)
 (*   "ensure-nil"  Map[K,*T].Ensure with the zero-configuration Default pool ends the process      *)
-(*                 (Make -> runtime.SetFinalizer(nil) -> fatal error), pool.go:93-97               *)
+(*                 (Make -> runtime.SetFinalizer(nil) -> fatal error), pool.go:94-99               *)
 (*   "make-value"  Pool.Make on a non-pointer T arms the finalizer on a temporary copy             *)
-(*                 (pool.go:98): the value re-enters the pool at the next GC although the caller   *)
-(*                 still uses it; MakeBytesBufferPool builds its buffers that way (pool.go:116)    *)
+(*                 (pool.go:101): the value re-enters the pool at the next GC although the caller   *)
+(*                 still uses it; MakeBytesBufferPool builds its buffers that way (pool.go:115)    *)
 (*   "buf-nil"     MakeBufferPool: an oversized slice does not re-enter the pool, but a nil slice  *)
-(*                 does (pool.go:141-146), so a later Get returns capacity 0 < min                 *)
+(*                 does (pool.go:138-143 and Put, pool.go:83), so a later Get returns capacity 0 < min                 *)
 (*                                                                            *)
 (* "As observed" choices (documentation silent; written down, never judged    *)
 (* as a divergence - where both outcomes are possible both are allowed):      *)
@@ -373,7 +373,7 @@ PoolStep ==
 (* ------------------------------------------------ pools of value-typed items *)
 \* Objects are the backing arrays.  kind "slice": a Pool[dt.Slice[byte]] whose items are taken with Make (finalizer)
 \* or Get; "bytesbuf": adt.MakeBytesBufferPool, whose constructor takes the backing array with Make from an inner
-\* slice pool (pool.go:116); "bufpool": adt.MakeBufferPool(min, max) with Put of slices that stayed within / grew
+\* slice pool (pool.go:115); "bufpool": adt.MakeBufferPool(min, max) with Put of slices that stayed within / grew
 \* beyond max.  Judged: a value handed out is not one the client still holds (NoDoubleHandout); bufpool: what Get
 \* returns has length 0 and at least the minimum capacity.
 VStep ==
